@@ -272,7 +272,7 @@ PROPS['C17'] = dict(ROUTER_COMMON, **{
     'modules': ['IpcModel.Props.C17'],
     'theorems': ['C17.C17_stopped_shutdown', 'C17.C17_stopped_proxy_drop', 'C17.C17_no_panic', 'C17.C17_late', 'C17.C17_idempotent',
                  'C17.C17_shutdown_sequential', 'Router.run_stopped', 'C17.C17_sys_inv', 'C17.C17_returns_stopped', 'C17.C17_stopped_forever',
-                 'C17.C17_no_deadlock', 'C17.C17_wake_channel_bounded', 'RSys.inv_step', 'RSys.no_stuck', 'RSys.winv_step', 'C17.C17_shape'],
+                 'C17.C17_no_deadlock', 'C17.C17_wake_channel_bounded', 'RSys.inv_step', 'RSys.no_stuck', 'RSys.winv_step', 'C17.C17_shape', 'C17.C17_code_variant'],
     'scenarios': router_scen(600, 8000, 240, 4000),
     'rule': ('seq: seeded client scripts of 3..14 operations {add_route, send, drop sender, shutdown, drop proxy} on a fresh RouterProxy with recording callbacks and '
              'drop guards, quiescence after every step, per-route logs compared with the model; race: 0..8 routes (one callback may re-enter add_route on the router '
@@ -294,7 +294,7 @@ PROPS['C17'] = dict(ROUTER_COMMON, **{
 PROPS['C07'] = dict(ROUTER_COMMON, **{
     'modules': ['IpcModel.Props.C07'],
     'theorems': ['C07.C07_dispatch', 'C07.C07_dispatch_partial_msg', 'C07.C07_dispatch_partial_closed', 'C07.C07_keys', 'C07.C07_fresh', 'Router.step_fresh',
-                 'Router.dispatch_run', 'Router.run_gone', 'C07.C07_shape'],
+                 'Router.dispatch_run', 'Router.run_gone', 'C07.C07_shape', 'C07.C07_code_variant'],
     'scenarios': router_scen(800, 8000, 160, 3000),
     'rule': PROPS['C17']['rule'],
     'explanation': ('one-step dispatch theorems (message -> exactly the registered handler, once; closure -> exactly that handler dropped; fresh ids) plus the freshness '
